@@ -1,12 +1,21 @@
 #!/bin/bash
-# usage: tools/seeded_matrix.sh [pattern]
-# prints "<id> <property> FLAGGED|MISSED|NOAPPLY <rules that fired>" for every seeded change
+# usage: tools/seeded_matrix.sh [pattern] [jobs]
+# prints "<id> <property> FLAGGED|MISSED|NOAPPLY <rules that fired> [anchor-only]" for every seeded change;
+# "anchor-only" marks a change that is reported solely through a missing anchor or a vacuity count
+# (i.e. not by a rule about the construct that was changed) - those deserve a rule of their own.
 cd "$(dirname "$0")/.."
-for d in seeded/${1:-*}/; do
-  id=$(basename $d); prop=${id%%-*}
-  out=$(MUTEST_LINES=200 tools/mutest.sh $prop $d/patch.diff 2>&1)
+PAT=${1:-*}; J=${2:-6}
+one() {
+  d=$1
+  id=$(basename "$d"); prop=${id%%-*}
+  out=$(MUTEST_LINES=400 tools/mutest.sh "$prop" "$d/patch.diff" 2>&1)
   last=$(echo "$out" | tail -1)
   rules=$(echo "$out" | grep -o "violated R[0-9a-z@/]*" | awk '{print $2}' | sort -u | tr '\n' ',' | sed 's/,$//')
-  case "$last" in FLAGGED*) s=FLAGGED;; MISSED*) s=MISSED;; *) s="NOAPPLY";; esac
-  echo "$id $prop $s $rules"
-done
+  nkeys=$(echo "$out" | grep -c "key: ")
+  nanch=$(echo "$out" | grep "key: " | grep -c "|anchor|\||vacuity|")
+  note=""
+  case "$last" in FLAGGED*) s=FLAGGED; [ "$nkeys" -gt 0 ] && [ "$nkeys" -eq "$nanch" ] && note=" anchor-only";; MISSED*) s=MISSED;; *) s="NOAPPLY";; esac
+  echo "$id $prop $s $rules$note"
+}
+export -f one
+ls -d seeded/$PAT/ | sed 's#/$##' | xargs -P "$J" -I{} bash -c 'one {}' | sort
